@@ -339,6 +339,8 @@ def check(prog: Program, res: Result) -> None:
     check_dir(prog, res)
     check_inimg(prog, res)
     check_call(prog, res)
+    from . import c01
+    res.borrow(c01.check_grid, "C05-grid", prog)
     res.assumptions += ["sigma > 0", "monotonicity of the weight, the channel numbering is not decided"]
 
 
